@@ -157,8 +157,14 @@ impl Language for Scala {
         Ok(())
     }
 
-    fn write_const(&mut self, _w: &mut dyn Write, _c: &RustConst) -> std::io::Result<()> {
-        todo!()
+    fn write_const(&mut self, _w: &mut dyn Write, c: &RustConst) -> std::io::Result<()> {
+        Err(std::io::Error::new(
+            std::io::ErrorKind::Unsupported,
+            format!(
+                "constants are not supported for Scala yet: {}",
+                c.id.original
+            ),
+        ))
     }
 
     fn write_struct(&mut self, w: &mut dyn Write, rs: &RustStruct) -> std::io::Result<()> {
